@@ -353,6 +353,7 @@ pub fn run_property(p: &dyn Property, cfg: &RunCfg) -> i32 {
     samples.extend(a.samples);
     table.extend(a.table);
   }
+  let any_crash = !crashes.is_empty();
   for (i, why) in crashes {
     let case = p.case_of(cfg.seed, i);
     failing.push((
@@ -405,13 +406,20 @@ pub fn run_property(p: &dyn Property, cfg: &RunCfg) -> i32 {
     if !reported_kinds.insert(format!("{}/{}", v.kind, v.op_class)) {
       continue;
     }
-    let (small, shrunk_from) = if v.kind == "crash" {
+    // A worker that died means the tree under test may corrupt memory: nothing
+    // is re-executed inside the driver process then (cases are reported as
+    // found, unshrunk). A panic of the shrinker itself falls back the same way.
+    let in_process_ok = !any_crash;
+    let (small, shrunk_from) = if v.kind == "crash" || !in_process_ok {
       (case.clone(), json!(null))
     } else {
-      p.shrink(case, &v.kind)
+      match std::panic::catch_unwind(std::panic::AssertUnwindSafe(|| p.shrink(case, &v.kind))) {
+        Ok(x) => x,
+        Err(_) => (case.clone(), json!(null)),
+      }
     };
     // re-execute the minimised case to get its own violation text and log hash
-    let (rep, _) = if v.kind == "crash" {
+    let (rep, _) = if v.kind == "crash" || !in_process_ok {
       // never re-execute a crashing case in the driver process
       (
         RunReport {
@@ -429,7 +437,24 @@ pub fn run_property(p: &dyn Property, cfg: &RunCfg) -> i32 {
         vec![],
       )
     } else {
-      p.replay(&small, false)
+      match std::panic::catch_unwind(std::panic::AssertUnwindSafe(|| p.replay(&small, false))) {
+        Ok(x) => x,
+        Err(_) => (
+          RunReport {
+            index: *i,
+            violations: vec![],
+            counters: Counters::default(),
+            log_hash: 0,
+            case_hash: 0,
+            nontrivial: false,
+            skipped: false,
+            case: case.clone(),
+            outcome_hash: 0,
+            site_pairs: BTreeSet::new(),
+          },
+          vec![],
+        ),
+      }
     };
     let found = rep
       .violations
